@@ -122,6 +122,9 @@ static inline std::vector<Item> pool()
     v.push_back({"... interface id differs", [] { auto p = distinctive(0x44, ST::intermediarySegment, 0xFE); p.setInterfaceId(0x0F1E2D3D); return p; }, true});
     v.push_back({"... vendor id differs", [] { auto p = distinctive(0x44, ST::intermediarySegment, 0xFE); p.setVendorId(0x4B5B); return p; }, true});
     v.push_back({"... common flags differ", [] { auto p = distinctive(0x44, ST::intermediarySegment, 0xFE); p.setCommonFlags(0x62); return p; }, true});
+    // ... and in every OTHER single bit of the common-flags byte (the byte is stored as written, whatever the segment type says)
+    for (int bit = 1; bit < 8; ++bit)
+        v.push_back({ofmt("... common flags differ in bit %d only", bit), [bit] { auto p = distinctive(0x44, ST::intermediarySegment, 0xFE); p.setCommonFlags((uint8_t) (p.getCommonFlags() ^ (1u << bit))); return p; }, true});
     v.push_back({"... timestamp high word differs", [] { auto p = distinctive(0x44, ST::intermediarySegment, 0xFE); p.setTimestamp(0x778899ABBBCCDDEEull); return p; }, true});
     v.push_back({"... payload one byte longer", [] { auto p = distinctive(0x44, ST::intermediarySegment, 0xFE); Bytes d = pat(6, 2); p.setPayload(A::Payload(A::PayloadType(A::CmpHeader::MessageType::data, 0xFE), d.data(), d.size())); return p; }, true});
     v.push_back({"one-byte payload", [] { A::Packet p; uint8_t b = 0x5A; p.setPayload(A::Payload(A::PayloadType(0x01FEu), &b, 1)); return p; }, true});
@@ -194,6 +197,22 @@ static inline void opCase(W& w, const std::vector<Item>& P, const std::string& o
         mutate(src, S.hasPayload);
         if (observe(t2, S.hasPayload) != want)
             w.fail(key + ":copy-shares-state-with-original", "mutating the original changed the copy");
+        // write access obtained BEFORE the copy was made and used after it (a long-lived Payload& into the original)
+        if (S.hasPayload)
+        {
+            A::Packet o2 = S.make();
+            A::Payload& held = o2.getPayload();
+            A::Packet t3(o2);
+            A::Packet t4 = T.make();
+            t4 = o2;
+            held.setRawPayloadType((uint8_t) (held.getRawPayloadType() ^ 0x40));
+            if (held.getLength() > 0)
+                const_cast<uint8_t*>(held.getRawPayload())[held.getLength() - 1] ^= 0xFF;
+            if (observe(t3, S.hasPayload) != want)
+                w.fail(key + ":copy-shares-state-with-original", "writing through a payload reference obtained before the copy changed the copy-constructed packet");
+            if (observe(t4, S.hasPayload) != want)
+                w.fail("value:copy-assign:copy-shares-state-with-original", "writing through a payload reference obtained before the copy changed the copy-assigned packet");
+        }
     }
     else if (op == "move-construct")
     {
@@ -368,6 +387,66 @@ static inline std::vector<std::pair<std::string, std::function<A::Payload()>>> a
         {"CanPayload 8, one byte differs, type reset to invalid", [] { A::CanPayload c; Bytes d = pat(8, 2); d[3] ^= 1; c.setData(d.data(), 8); PL p(c); p.setType(A::PayloadType(A::PayloadType::invalid)); return p; }},
     };
 }
+// Objects of the CONCRETE payload classes assigned to each other through the base class (Payload& = const Payload&), copied and
+// moved as their own class, and compared across classes: the value is (type, bytes) whatever the static or dynamic class
+static inline std::vector<std::pair<std::string, std::function<std::unique_ptr<A::Payload>()>>> concretePayloads()
+{
+    using UP = std::unique_ptr<A::Payload>;
+    return {
+        {"CanPayload 8", []() -> UP { auto c = std::make_unique<A::CanPayload>(); Bytes d = pat(8, 2); c->setId(0x123); c->setData(d.data(), 8); return c; }},
+        {"CanFdPayload 12", []() -> UP { auto c = std::make_unique<A::CanFdPayload>(); Bytes d = pat(12, 3); c->setId(0x55); c->setData(d.data(), 12); return c; }},
+        {"LinPayload 8 (same size as CAN 8 - 8)", []() -> UP { auto c = std::make_unique<A::LinPayload>(); Bytes d = pat(16, 4); c->setLinId(0x21); c->setData(d.data(), 16); return c; }},
+        {"EthernetPayload 18", []() -> UP { auto c = std::make_unique<A::EthernetPayload>(); Bytes d = pat(18, 5); c->setData(d.data(), 18); return c; }},
+        {"AnalogPayload 8", []() -> UP { auto c = std::make_unique<A::AnalogPayload>(); Bytes d = pat(8, 6); c->setData(d.data(), 8); return c; }},
+        {"CaptureModulePayload", []() -> UP { auto c = std::make_unique<A::CaptureModulePayload>(); c->setUptime(5); c->setData("dev", "sn", "hw", "sw", {1, 2, 3}); return c; }},
+        {"InterfacePayload", []() -> UP { auto c = std::make_unique<A::InterfacePayload>(); c->setInterfaceId(9); uint8_t s2[3] = {1, 2, 3}; c->setData(s2, 3, nullptr, 0); return c; }},
+        {"default CanPayload", []() -> UP { return std::make_unique<A::CanPayload>(); }},
+        {"default AnalogPayload (same size as a default CanPayload)", []() -> UP { return std::make_unique<A::AnalogPayload>(); }},
+        {"plain Payload 24 bytes", []() -> UP { Bytes d = pat(24, 7); return std::make_unique<A::Payload>(A::PayloadType(0x01FEu), d.data(), d.size()); }},
+    };
+}
+
+static inline void crossClassCases(W& w, const std::string& only = "")
+{
+    auto P = concretePayloads();
+    for (size_t i = 0; i < P.size(); ++i)
+        for (size_t j = 0; j < P.size(); ++j)
+        {
+            std::string cs = ofmt("k=xcls;a=%zu;b=%zu", i, j);
+            if (!only.empty() && only != cs)
+                continue;
+            auto desc = [&] { return cs; };
+            if (only.empty() && !w.begin_case(desc))
+                continue;
+            w.add(mc::C_TRACES, 1);
+            w.add(mc::C_TRANS, 4);
+            auto a = P[i].second(), b = P[j].second();
+            const std::string wa = obsPl(*a);
+            {
+                auto t = P[j].second();
+                *t = *a;   // Payload::operator=(const Payload&) on an object of another concrete class
+                if (obsPl(*t) != wa) w.fail("value:copy-assign-through-base:target-differs-from-source", P[i].first + " -> " + P[j].first + ": {" + obsPl(*t) + "} source {" + wa + "}");
+                if (obsPl(*a) != wa) w.fail("value:copy:source-changed:Payload", P[i].first);
+                t->setRawPayloadType((uint8_t) (t->getRawPayloadType() ^ 0x11));
+                if (obsPl(*a) != wa) w.fail("value:copy-shares-state-with-original:Payload", P[i].first);
+                auto u = P[j].second();
+                auto a2 = P[i].second();
+                *u = std::move(*a2);
+                if (obsPl(*u) != wa) w.fail("value:move-assign-through-base:target-differs-from-source", P[i].first + " -> " + P[j].first);
+                A::Packet pk;
+                pk.setPayload(*b);
+                pk.setPayload(*a);   // the packet held a payload of another class
+                if (obsPl(pk.getPayload()) != wa) w.fail("value:packet-payload-differs-from-the-one-set", P[i].first + " after " + P[j].first);
+            }
+            bool ab = *a == *b, ba = *b == *a, fe = obsPl(*a) == obsPl(*b);
+            if (ab != ba)
+                w.fail("equality:not-symmetric:Payload", P[i].first + " vs " + P[j].first);
+            if (a->getLength() > 0 && b->getLength() > 0 && fe != ab)
+                w.fail(fe ? "equality:equal-objects-compare-unequal:Payload" : "equality:different-objects-compare-equal:Payload", P[i].first + " vs " + P[j].first);
+            w.outcome(mc::mix(mc::fnv_s("xcls"), mc::mix(mc::mix(i, j), ab)));
+        }
+}
+
 static inline std::vector<std::pair<std::string, std::function<TECMP::Payload()>>> tecmpPayloads()
 {
     using PL = TECMP::Payload;
@@ -404,6 +483,7 @@ static int runC14(mc::Run& run, const mc::Options& opt)
         if (kv["k"] == "op") opCase(w, P, kv["op"], n("s"), n("t"));
         else if (kv["k"] == "two") twoAssign(w, P, n("t"), n("a"), n("b"));
         else if (kv["k"] == "eq") eqCase(w, P, n("a"), n("b"));
+        else if (kv["k"] == "xcls") crossClassCases(w, cs);
         else if (kv["k"] == "pl")
         {
             if (kv["cls"] == "Payload") payloadCases<ASAM::CMP::Payload>(w, "Payload", asamPayloads(), cs);
@@ -463,6 +543,8 @@ static int runC14(mc::Run& run, const mc::Options& opt)
             w.add(mc::C_STATES, 1);
         }
     });
+    run.round("objects of 10 concrete payload classes / states: all ordered pairs assigned through the base class, set into a packet holding the other, compared", 1,
+              [&](W& w, uint64_t) { crossClassCases(w); });
     run.round("Payload and TECMP::Payload: all ordered pairs x value operations + equality", 2, [&](W& w, uint64_t o) {
         if (o == 0)
             payloadCases<ASAM::CMP::Payload>(w, "Payload", asamPayloads());
